@@ -225,6 +225,25 @@ theorem band_complete_roundtrip_czt (he : IsChar e) (hf : IsFaithful e) (cj : K 
     czt2_eq_mdft2 nrm he hf m n M N K1 L1 _ _ s0 s1 f k l hm0 hn0 hk hl hK1 hL1)]
   exact mdft2_roundtrip nrm he hf cj hc m n M N hm hn hM hN' _ _ s0 s1 rfl rfl (hN M hM) (hN N hN') (rd2 f) j i hj hi
 
+/-- `czt2` onto the full band conserves energy as well (the transform exactly as computed, any admissible FFT lengths) -/
+theorem band_complete_energy_czt (he : IsChar e) (hf : IsFaithful e) (cj : K →+* K) (hc : IsConj cj e nrm) (hN : NrmSq nrm)
+    (m n M N K1 L1 : Nat) (Qy Qx s0 s1 : R) (hQy : (m : R) * Qy = M) (hQx : (n : R) * Qx = N)
+    (hm0 : 0 < m) (hn0 : 0 < n) (hm : m ≤ M) (hn : n ≤ N) (hK1 : m + M ≤ K1 + 1) (hL1 : n + N ≤ L1 + 1)
+    (f : Array (Array K)) :
+    energy2 cj M N (rd2 (czt2 e nrm cztRowWiring cztColWiring (cztGlueGen m M K1) (cztGlueGen n N L1) (m, n) (M, N) (K1, L1)
+        (cztRowAlpha (m : R) (n : R) Qy Qx) (cztColAlpha (m : R) (n : R) Qy Qx) (s0, s1) f))
+      = energy2 cj m n (rd2 f) := by
+  have hM : 0 < M := by omega
+  have hN' : 0 < N := by omega
+  obtain ⟨a1, a2⟩ := gen_czt_alpha (R := R) m n Qy Qx
+  have hay : alphaOf m Qy = 1 / (M : R) := by rw [alphaOf_eq, hQy]
+  have hax : alphaOf n Qx = 1 / (N : R) := by rw [alphaOf_eq, hQx]
+  rw [gen_czt_wiring.1, gen_czt_wiring.2.1, a1, a2, gen_czt_glue, gen_czt_glue]
+  rw [energy2_congr cj M N (fun k l hk hl =>
+    czt2_eq_mdft2 nrm he hf m n M N K1 L1 _ _ s0 s1 f k l hm0 hn0 hk hl hK1 hL1)]
+  exact mdft2_parseval nrm he hf cj hc m n M N hm hn hM hN' _ _ s0 s1 hay hax
+    (by rw [hay]; exact hN M hM) (by rw [hax]; exact hN N hN') (rd2 f)
+
 /-! ## angular spectrum (free space) -/
 
 /-- the transfer function has unit modulus for every wavelength, spacing, distance (any sign), shape and sample -/
